@@ -133,4 +133,11 @@ def foldedFilter (r C L kw : Nat) (wgt : Nat → Nat → Nat → Int) : Nat → 
   fun ky kx' c' => paddedFilter L kw wgt ky (r * kx' + c' / C) (c' % C)
 
 
+/-! ## Dilation in software (`fixup_dilation_gt2`) -/
+
+/-- the kernel with `sc - 1` neutral taps (zero-point-corrected value 0) inserted between the original ones -/
+def sparseFilter (sch scw : Nat) (wgt : Nat → Nat → Nat → Int) : Nat → Nat → Nat → Int :=
+  fun ky kx c => if ky % sch = 0 ∧ kx % scw = 0 then wgt (ky / sch) (kx / scw) c else 0
+
+
 end VelaVerif.RewriteSem
